@@ -5,8 +5,8 @@ import Zrnt.Prelude.Res
 A `*PubkeyCache` is a handle: an index into a store of cache levels. A level is
 `(parent, trustedParentCount, idx2pub, pub2idx)` exactly as in the Go struct. `pubkey`,
 `validatorIndex` and `addValidator` follow the Go control flow: the parent delegation of the two
-lookups, the three fork-out branches of `AddValidator`, the recursive call on the forked level,
-the gap error and the append in place. Recursion takes fuel; running out of fuel is the explicit
+lookups, the three fork-out decisions of `AddValidator` (in Go: `addOrFork` returning the index to fork
+at), the recursive call on the forked level, the gap error and the append in place. Recursion takes fuel; running out of fuel is the explicit
 result `Res.outOfFuel` (the harness observes it as `diverged`).
 
 Public keys are abstract (`Key := Nat`; the harness maps small ids to real compressed BLS keys);
